@@ -17,9 +17,9 @@ From PV Require Export Base.Prelude.
 Record kview := {
   kv_stat  : Z -> option (Z * Z * bool);  (* /proc/<pid>/stat: starttime (ticks), ppid, state = 'Z';
                                              None = no such directory; the same answer decides ESRCH *)
-  kv_ctime_ok : Z -> bool;                (* Process.__init__ could read the creation time of <pid>;
-                                             false = _get_ident() raised AccessDenied / ZombieProcess,
-                                             which _init swallows leaving _ident = (pid, None) *)
+  kv_ctime_ok : Z -> bool;                (* /proc/<pid>/stat is readable; false = EACCES/EPERM: _get_ident()
+                                             raises AccessDenied, which _init swallows leaving
+                                             _ident = (pid, None); ppid()/create_time() raise AccessDenied *)
   kv_pids  : list Z;                      (* numeric entries of os.listdir(/proc), any order *)
   kv_btime : Z                            (* btime line of /proc/stat *)
 }.
@@ -281,10 +281,15 @@ Definition parse_stat (x : pobj) : pobj * option (Z * Z) :=
   | _, _ =>
     match kv_stat K (opid x) with
     | Some (st, pp, _) =>
-      (match oshot x with S _ => with_shot (oshot x) (ocppid x) (Some (st, pp)) x | O => x end, Some (st, pp))
+      if kv_ctime_ok K (opid x)
+      then (match oshot x with S _ => with_shot (oshot x) (ocppid x) (Some (st, pp)) x | O => x end, Some (st, pp))
+      else (x, None)                      (* PermissionError reading stat: see stat_exn *)
     | None => (x, None)
     end
   end.
+(* the exception of a failed stat read (wrap_exceptions): the file is there but unreadable -> AccessDenied;
+   no such file -> NoSuchProcess (ZombieProcess) *)
+Definition stat_exn (pid : Z) : exn := if kexists pid then AccessDenied else esrch_exn pid.
 
 (* Process.ppid(): @memoize_when_activated around the whole method, _raise_if_pid_reused() included *)
 Definition do_ppid (x : pobj) : pobj * outcome res * list Z :=
@@ -298,7 +303,7 @@ Definition do_ppid (x : pobj) : pobj * outcome res * list Z :=
       match st with
       | Some (_, pp) =>
         (match oshot x2 with S _ => with_shot (oshot x2) (Some pp) (ocstat x2) x2 | O => x2 end, Val (RInt pp), add)
-      | None => (x2, Exc (esrch_exn (opid x2)), add)
+      | None => (x2, Exc (stat_exn (opid x2)), add)
       end
     | Exc e => (x1, Exc e, add)
     | OutOfModel => (x1, OutOfModel, add)
@@ -328,7 +333,7 @@ Definition do_create_time (m : mstate) (x : pobj) : mstate * pobj * outcome res 
   | None =>
     let '(x1, ps) := parse_stat x in
     match ps with
-    | None => (m, x1, Exc (esrch_exn (opid x1)))
+    | None => (m, x1, Exc (stat_exn (opid x1)))
     | Some (st, _) =>
       let '(m1, bt) := match bootc m with
                        | Some b => if b =? 0 then do_boot_time m else (m, b)
